@@ -345,10 +345,11 @@ def run_search(cfg):
                     bad = not errs[0] <= 1e-10
                     msg = "relative error %.3e" % errs[0]
                 else:
-                    # singular part changes its Duffy parametrisation: must converge under order refinement
-                    # (a wrong vertex correspondence gives an O(1e-2..1) error that does not decrease)
-                    bad = not (errs[-1] <= 1e-10 or
-                               (errs[2] <= 0.5 * errs[1] and errs[1] <= 0.5 * errs[0] and errs[-1] <= 1e-3))
+                    # singular part changes its Duffy parametrisation: the two matrices converge to the same limit, so the
+                    # difference must decay under order refinement (geometric convergence of the Sauter-Schwab rules; on
+                    # sharp dihedral angles the rate is slow: 5e-2 -> 1e-2 -> 4e-3 was observed on a distorted tetrahedron
+                    # with a correct tree).  A wrong vertex correspondence leaves a bias that does not decay.
+                    bad = not (errs[-1] <= 1e-9 or errs[-1] <= 0.5 * errs[0])
                     msg = "relative errors %s at singular orders 3,5,7" % (["%.2e" % x for x in errs],)
                 if bad:
                     fails.append({"signature": "C03:%s equivariance of %s" % (mode, name),
